@@ -40,7 +40,10 @@ var targets = []target{
 			"FieldParser.scanSegment", "FieldParser.doRemoveBOM", "FieldParser.Next", "FieldParser.Reset", "FieldParser.RemoveBOM",
 			"FieldParser.KeepComments", "FieldParser.Started", "FieldParser.Err"},
 		out: "Parser"},
-	{dir: ".", files: []string{"message.go", "replay.go"}, funcs: []string{"isSingleLine", "topicsIntersect"}, out: "Root"},
+	{dir: ".", files: []string{"message.go", "replay.go"}, funcs: []string{"isSingleLine", "topicsIntersect",
+		"queue.enqueue", "queue.dequeue", "queue.resize"}, out: "Root"},
+	{dir: ".", files: []string{"message.go", "message_fields.go"}, funcs: []string{"newMessageField", "messageField.IsSet",
+		"messageField.String", "messageField.UnmarshalText", "NewID", "NewType"}, out: "Fields"},
 }
 
 func die(pos token.Position, format string, a ...any) {
@@ -60,13 +63,16 @@ type tr struct {
 	known   map[string]bool // functions translated so far (callable)
 	nilable map[types.Object]bool
 	// current function
-	results []*types.Var
-	recv    *types.Var // pointer receiver treated as in/out state
-	inouts  []*types.Var
-	structs map[string]*types.Struct
-	aux     *em    // loop bodies of the current function, emitted before it
-	fname   string // Lean name of the current function
-	nloop   int
+	results        []*types.Var
+	recv           *types.Var // pointer receiver treated as in/out state
+	inouts         []*types.Var
+	structs        map[string]*types.Struct
+	generic        map[string]int // generic structs: number of type parameters
+	genericBinders map[string]string
+	tpDecl         string // type-parameter binders of the current function
+	aux            *em    // loop bodies of the current function, emitted before it
+	fname          string // Lean name of the current function
+	nloop          int
 }
 
 func (t *tr) pos(n ast.Node) token.Position { return t.fset.Position(n.Pos()) }
@@ -101,10 +107,34 @@ func (t *tr) nameOf(o types.Object) string {
 
 func (t *tr) leanType(ty types.Type, at ast.Node) string {
 	switch u := ty.(type) {
+	case *types.TypeParam:
+		return u.Obj().Name()
 	case *types.Named:
 		if st, ok := u.Underlying().(*types.Struct); ok {
-			t.structs[u.Obj().Name()] = st
-			return u.Obj().Name()
+			name := u.Obj().Name()
+			if u.TypeParams().Len() > 0 || u.TypeArgs().Len() > 0 {
+				// a generic struct: structure name (T : Type); its fields are read off the generic declaration
+				og := u.Origin()
+				t.structs[name] = og.Underlying().(*types.Struct)
+				t.generic[name] = og.TypeParams().Len()
+				var bs []string
+				for i := 0; i < og.TypeParams().Len(); i++ {
+					bs = append(bs, "("+og.TypeParams().At(i).Obj().Name()+" : Type)")
+				}
+				t.genericBinders[name] = strings.Join(bs, " ")
+				var args []string
+				for i := 0; i < u.TypeArgs().Len(); i++ {
+					args = append(args, t.leanType(u.TypeArgs().At(i), at))
+				}
+				if len(args) == 0 {
+					for i := 0; i < u.TypeParams().Len(); i++ {
+						args = append(args, u.TypeParams().At(i).Obj().Name())
+					}
+				}
+				return "(" + name + " " + strings.Join(args, " ") + ")"
+			}
+			t.structs[name] = st
+			return name
 		}
 		if u.Obj().Name() == "error" {
 			return "(Option String)"
@@ -161,8 +191,31 @@ func (t *tr) zero(ty types.Type, at ast.Node) string {
 	if strings.HasPrefix(t.leanType(ty, at), "(List ") {
 		return "[]"
 	}
+	if _, ok := ty.(*types.TypeParam); ok {
+		return "default"
+	}
+	if n, ok := ty.(*types.Named); ok {
+		if st, ok := n.Underlying().(*types.Struct); ok {
+			return t.structLit(n, st, nil, at)
+		}
+	}
 	die(t.pos(at), "zero value of %s", ty)
 	return ""
+}
+
+// structLit: a struct value with the given field values, zero values elsewhere
+func (t *tr) structLit(n *types.Named, st *types.Struct, vals map[string]string, at ast.Node) string {
+	t.leanType(n, at) // records the structure
+	var fs []string
+	for i := 0; i < st.NumFields(); i++ {
+		f := st.Field(i)
+		v, ok := vals[f.Name()]
+		if !ok {
+			v = t.zero(f.Type(), at)
+		}
+		fs = append(fs, f.Name()+" := "+v)
+	}
+	return "({ " + strings.Join(fs, ", ") + " } : " + n.Obj().Name() + ")"
 }
 
 func bytesLit(s string) string {
@@ -335,6 +388,30 @@ func (t *tr) expr(e *em, x ast.Expr) string {
 			return s
 		}
 		return n
+	case *ast.CompositeLit:
+		n, ok := t.info.Types[v].Type.(*types.Named)
+		if !ok {
+			die(t.pos(x), "composite literal of %s", t.info.Types[v].Type)
+		}
+		st, ok := n.Underlying().(*types.Struct)
+		if !ok {
+			die(t.pos(x), "composite literal of %s", n)
+		}
+		vals := map[string]string{}
+		for i, el := range v.Elts {
+			if kv, ok := el.(*ast.KeyValueExpr); ok {
+				vals[kv.Key.(*ast.Ident).Name] = t.expr(e, kv.Value)
+			} else {
+				vals[st.Field(i).Name()] = t.expr(e, el)
+			}
+		}
+		return t.structLit(n, st, vals, x)
+	case *ast.StarExpr:
+		// *new(T): the zero value
+		if c, ok := v.X.(*ast.CallExpr); ok && types.ExprString(c.Fun) == "new" && len(c.Args) == 1 {
+			return t.zero(t.info.Types[c.Args[0]].Type, x)
+		}
+		die(t.pos(x), "dereference %s", types.ExprString(x))
 	case *ast.CallExpr:
 		return t.call(e, v)
 	}
@@ -363,6 +440,24 @@ func (t *tr) call(e *em, v *ast.CallExpr) string {
 		if len(v.Args) == 2 {
 			return "(min " + t.expr(e, v.Args[0]) + " " + t.expr(e, v.Args[1]) + ")"
 		}
+	case "errors.New", "fmt.Errorf":
+		// an error value is identified by its (format) text; wrapping is not modelled
+		if tv, ok := t.info.Types[v.Args[0]]; ok && tv.Value != nil && tv.Value.Kind() == constant.String {
+			for _, a := range v.Args[1:] {
+				_ = t.expr(e, a) // evaluated for its checks
+			}
+			return fmt.Sprintf("(some %q)", constant.StringVal(tv.Value))
+		}
+	case "make":
+		if len(v.Args) == 2 {
+			if sl, ok := t.info.Types[v.Args[0]].Type.Underlying().(*types.Slice); ok {
+				n := t.fresh("mk")
+				e.line("let %s ← makeSlice %s %s", n, t.zero(sl.Elem(), v), t.expr(e, v.Args[1]))
+				return n
+			}
+		}
+	case "copy":
+		return t.copyCall(e, v)
 	case "strings.IndexByte":
 		return "(stringsIndexByte " + t.expr(e, v.Args[0]) + " " + t.expr(e, v.Args[1]) + ")"
 	case "strings.HasPrefix":
@@ -413,6 +508,36 @@ func (t *tr) call(e *em, v *ast.CallExpr) string {
 	n := t.fresh("r")
 	e.line("let %s ← %s %s", n, fn, strings.Join(args, " "))
 	return n
+}
+
+// copyCall: copy(dst, src) where dst is a local slice x or x[a:] — the write goes to x; the result is the count
+func (t *tr) copyCall(e *em, v *ast.CallExpr) string {
+	if len(v.Args) != 2 {
+		die(t.pos(v), "copy")
+	}
+	src := t.expr(e, v.Args[1])
+	var base *ast.Ident
+	off := "(0 : Int)"
+	switch d := v.Args[0].(type) {
+	case *ast.Ident:
+		base = d
+	case *ast.SliceExpr:
+		if id, ok := d.X.(*ast.Ident); ok && d.High == nil && d.Low != nil && !d.Slice3 {
+			base = id
+			off = t.expr(e, d.Low)
+		}
+	}
+	if base == nil {
+		die(t.pos(v), "copy into %s", types.ExprString(v.Args[0]))
+	}
+	o, ok := t.info.Uses[base].(*types.Var)
+	if !ok || o.IsField() || o.Parent() == t.pkg.Scope() {
+		die(t.pos(v), "copy into a non-local")
+	}
+	n := t.fresh("cp")
+	e.line("let %s ← copyInto %s %s %s", n, t.nameOf(o), off, src)
+	e.line("let %s := %s.1", t.nameOf(o), n)
+	return n + ".2"
 }
 
 // methodCall: `f.m(args…)` where f is the pointer receiver of the current function and m has been
@@ -574,6 +699,21 @@ func (t *tr) assignTo(e *em, lhs ast.Expr, val string, define bool) {
 		o := t.info.Uses[base]
 		n := t.nameOf(o)
 		e.line("let %s := { %s with %s := %s }", n, n, l.Sel.Name, val)
+	case *ast.StarExpr:
+		// *p = v where p is a pointer receiver / parameter: the in/out value is replaced
+		id, ok := l.X.(*ast.Ident)
+		if !ok {
+			die(t.pos(lhs), "assignment to %s", types.ExprString(lhs))
+		}
+		e.line("let %s := %s", t.nameOf(t.info.Uses[id]), val)
+	case *ast.IndexExpr:
+		// element assignment through a local slice or a slice field of an in/out struct (value semantics: the
+		// translated functions own the slice they write to)
+		i := t.expr(e, l.Index)
+		cur := t.expr(e, l.X)
+		n := t.fresh("set")
+		e.line("let %s ← setIdx %s %s %s", n, cur, i, val)
+		t.assignTo(e, l.X, n, false)
 	default:
 		die(t.pos(lhs), "assignment to %s", types.ExprString(lhs))
 	}
@@ -694,6 +834,10 @@ func (t *tr) simple(e *em, s ast.Stmt) {
 	case *ast.ExprStmt:
 		// a call for its effect on the receiver
 		if c, ok := v.X.(*ast.CallExpr); ok {
+			if types.ExprString(c.Fun) == "copy" {
+				_ = t.copyCall(e, c)
+				return
+			}
 			_ = t.call(e, c)
 			return
 		}
@@ -999,7 +1143,7 @@ func (t *tr) loop(e *em, inner *loopCtx, cond ast.Expr, rng *ast.RangeStmt, body
 	// the body, as its own definition
 	b := &em{}
 	b.line("/-- body of loop %d of `%s` (condition and post statement included) -/", t.nloop, t.fname)
-	b.line("def %s (fuel : Nat) %s (%s : %s) : GoM (Step (%s) (%s)) := do", lname, strings.Join(capDecl, " "), st, sigma, sigma, rho)
+	b.line("def %s %s(fuel : Nat) %s (%s : %s) : GoM (Step (%s) (%s)) := do", lname, t.tpDecl, strings.Join(capDecl, " "), st, sigma, sigma, rho)
 	b.ind++
 	t.unpack(b, inner, st)
 	if rng != nil {
@@ -1124,11 +1268,10 @@ func (t *tr) function(out *em, fd *ast.FuncDecl, leanName string) {
 	t.findNilable(fd, sig)
 	var params []string
 	if r := sig.Recv(); r != nil {
-		if _, ok := r.Type().(*types.Pointer); !ok {
-			die(t.pos(fd), "value receiver")
+		if _, ok := r.Type().(*types.Pointer); ok {
+			t.recv = r
+			t.inouts = append(t.inouts, r)
 		}
-		t.recv = r
-		t.inouts = append(t.inouts, r)
 		params = append(params, fmt.Sprintf("(%s : %s)", t.nameOf(r), t.leanType(r.Type(), fd)))
 	}
 	for i := 0; i < sig.Params().Len(); i++ {
@@ -1142,7 +1285,23 @@ func (t *tr) function(out *em, fd *ast.FuncDecl, leanName string) {
 		t.results = append(t.results, sig.Results().At(i))
 	}
 	out.line("/-- `%s` (%s) -/", leanName, t.fset.Position(fd.Pos()).Filename[strings.LastIndex(t.fset.Position(fd.Pos()).Filename, "/")+1:])
-	out.line("def %s (fuel : Nat) %s : GoM (%s) := do", leanName, strings.Join(params, " "), t.rho())
+	tps := ""
+	if r := sig.Recv(); r != nil {
+		rt := r.Type()
+		if p, ok := rt.(*types.Pointer); ok {
+			rt = p.Elem()
+		}
+		if n, ok := rt.(*types.Named); ok {
+			for i := 0; i < n.TypeParams().Len(); i++ {
+				tps += fmt.Sprintf("{%s : Type} [Inhabited %s] ", n.TypeParams().At(i).Obj().Name(), n.TypeParams().At(i).Obj().Name())
+			}
+		}
+	}
+	for i := 0; i < sig.TypeParams().Len(); i++ {
+		tps += fmt.Sprintf("{%s : Type} [Inhabited %s] ", sig.TypeParams().At(i).Obj().Name(), sig.TypeParams().At(i).Obj().Name())
+	}
+	t.tpDecl = tps
+	out.line("def %s %s(fuel : Nat) %s : GoM (%s) := do", leanName, tps, strings.Join(params, " "), t.rho())
 	out.ind++
 	for _, r := range t.results {
 		if r.Name() != "" && r.Name() != "_" {
@@ -1160,6 +1319,15 @@ func (t *tr) function(out *em, fd *ast.FuncDecl, leanName string) {
 }
 
 func (t *tr) structDecl(out *em, name string, st *types.Struct) {
+	if k := t.generic[name]; k > 0 {
+		out.line("structure %s %s where", name, t.genericBinders[name])
+		for i := 0; i < st.NumFields(); i++ {
+			f := st.Field(i)
+			out.line("  %s : %s", f.Name(), t.leanType(f.Type(), nil))
+		}
+		out.line("")
+		return
+	}
 	out.line("structure %s where", name)
 	for i := 0; i < st.NumFields(); i++ {
 		f := st.Field(i)
@@ -1194,6 +1362,8 @@ func main() {
 	}
 	known := map[string]bool{}
 	checked := map[string]*types.Package{}
+	declared := map[string]bool{} // structures emitted by an earlier module
+	var outs []string
 	for _, tg := range targets {
 		fset := token.NewFileSet()
 		var files []*ast.File
@@ -1210,7 +1380,7 @@ func main() {
 		conf := types.Config{Importer: chain{checked, importer.ForCompiler(fset, "source", nil)}, Error: func(error) {}} // a partial package: unresolved names elsewhere are not our concern
 		pkg, _ := conf.Check(tg.dir, fset, files, info)
 		checked["github.com/tmaxmax/go-sse/"+tg.dir] = pkg
-		t := &tr{fset: fset, info: info, pkg: pkg, known: known, nilable: map[types.Object]bool{}, structs: map[string]*types.Struct{}}
+		t := &tr{fset: fset, info: info, pkg: pkg, known: known, nilable: map[types.Object]bool{}, structs: map[string]*types.Struct{}, generic: map[string]int{}, genericBinders: map[string]string{}}
 		decls := map[string]*ast.FuncDecl{}
 		for _, f := range files {
 			for _, d := range f.Decls {
@@ -1220,6 +1390,9 @@ func main() {
 						rt := fd.Recv.List[0].Type
 						if s, ok := rt.(*ast.StarExpr); ok {
 							rt = s.X
+						}
+						if ix, ok := rt.(*ast.IndexExpr); ok { // generic receiver queue[T]
+							rt = ix.X
 						}
 						name = types.ExprString(rt) + "." + name
 					}
@@ -1238,9 +1411,10 @@ func main() {
 		}
 		head := &em{}
 		head.line("import GoSSE.GoRT")
-		if tg.out != "Parser" {
-			head.line("import GoSSE.Gen.Parser")
+		for _, prev := range outs {
+			head.line("import GoSSE.Gen.%s", prev)
 		}
+		outs = append(outs, tg.out)
 		head.line("/-! GENERATED by /verif/translate from %s (%s) — do not edit; regenerated on every run. -/", tg.dir, strings.Join(tg.files, ", "))
 		head.line("set_option linter.unusedVariables false")
 		head.line("namespace GoSSE.Gen")
@@ -1251,8 +1425,26 @@ func main() {
 			sn = append(sn, n)
 		}
 		sort.Strings(sn)
+		done := map[string]bool{}
+		var emit func(n string)
+		emit = func(n string) {
+			if done[n] || declared[n] {
+				return
+			}
+			done[n] = true
+			st := t.structs[n]
+			for i := 0; i < st.NumFields(); i++ {
+				if fn, ok := st.Field(i).Type().(*types.Named); ok {
+					if _, ok := t.structs[fn.Obj().Name()]; ok {
+						emit(fn.Obj().Name())
+					}
+				}
+			}
+			t.structDecl(head, n, st)
+			declared[n] = true
+		}
 		for _, n := range sn {
-			t.structDecl(head, n, t.structs[n])
+			emit(n)
 		}
 		src := head.sb.String() + body.sb.String() + "end GoSSE.Gen\n"
 		if err := os.WriteFile(filepath.Join(outDir, tg.out+".lean"), []byte(src), 0o644); err != nil {
